@@ -75,7 +75,7 @@ let run () =
   (* header accumulation *)
   let ma = ref { m_fee = []; m_pool = []; m_pos = []; m_dao = [] } in
   let pp = ref None and ap = ref None and acl = ref [] and dao_owner = ref [] and dao_tokens = ref Z0 in
-  let accs = ref [] and sup = ref Z0 and gvals = ref [] in
+  let accs = ref [] and sup = ref Z0 and gvals = ref [] and pkof = ref [] in
   let out res = (match !st with
       | Some s -> Printf.printf "%s.%d %s %s\n" !hid !idx res (dump s)
       | None -> Printf.printf "%s.%d %s\n" !hid !idx res);
@@ -87,7 +87,7 @@ let run () =
       let toks = String.split_on_char ' ' line in
       match toks with
       | "H" :: id :: _ ->
-        hid := id; idx := 0; dead := false; st := None; accs := []; gvals := [];
+        hid := id; idx := 0; dead := false; st := None; accs := []; gvals := []; pkof := [];
         ma := { m_fee = bz (field line "fee"); m_pool = bz (field line "pool"); m_pos = bz (field line "pos"); m_dao = bz (field line "dao") };
         govfee := zo (field line "govfee")
       | ["PP"; a; b; c; d; e; f; g; h; i] ->
@@ -101,11 +101,13 @@ let run () =
       | ["ACL"; l] -> acl := List.map (fun it -> let (k, v) = kv it in (bz k, bz v)) (csv l)
       | ["DAO"; o; t] -> dao_owner := bz o; dao_tokens := zo t
       | ["ACC"; a; b] -> accs := (bz a, zo b) :: !accs
+      | ["PKOF"; a; k] -> pkof := (bz a, bz k) :: !pkof
       | ["SUP"; s] -> sup := zo s
       | ["VAL"; a; pk; t] -> gvals := !gvals @ [((bz a, bz pk), zo t)]
       | ["INIT"] ->
         let acct_map = List.fold_left (fun m (a, b) -> aset m a b) [] !accs in
-        let haspk = List.fold_left (fun m (a, _) -> if a = !ma.m_pool then m else aset m a ()) [] !accs in
+        let haspk = List.fold_left (fun m (a, _) -> if a = !ma.m_pool then m else
+                                       aset m a (match List.assoc_opt a !pkof with Some k -> k | None -> a)) [] !accs in
         let s0 = { accts = acct_map; supply = !sup; vals = []; powidx = []; prevpow = []; prevtotal = Z0;
                    unstq = []; sinfo = []; missed = []; awards = []; burns = []; proposer = None; pkrel = [];
                    pp = (match !pp with Some p -> p | None -> failwith "no PP");
